@@ -250,7 +250,7 @@ def weight_image(shape, x0, y0, imshape, method='exact', subpixels=5):
     is_rect = shape['kind'] in ('rect', 'rannulus')
     if method == 'exact' and not is_rect:
         W[i0:i1, j0:j1] = exact_weights(shape, x0, y0, j0, j1, i0, i1)
-        S[i0:i1, j0:j1] = 1e-8
+        S[(W > 0) & (W < 1)] = 1e-8
     else:
         s = 1 if method == 'center' else (32 if method == 'exact'
                                           else int(subpixels))
@@ -258,3 +258,33 @@ def weight_image(shape, x0, y0, imshape, method='exact', subpixels=5):
         W[i0:i1, j0:j1] = (n_in + 0.5 * n_amb) / (s * s)
         S[i0:i1, j0:j1] = 0.5 * n_amb / (s * s) + 1e-12
     return W, S
+
+
+def minimal_box(shape, x0, y0):
+    """(ixmin, ixmax, iymin, iymax, ambiguous): smallest integer pixel box
+    containing the shape (upper bounds exclusive); ambiguous when an extent
+    is within rounding of a half-integer."""
+    dx, dy = extents(shape)
+    tolx = 1e-9 + 4 * float(np.spacing(abs(x0) + dx))
+    toly = 1e-9 + 4 * float(np.spacing(abs(y0) + dy))
+    vals = (x0 - dx + 0.5, x0 + dx + 0.5, y0 - dy + 0.5, y0 + dy + 0.5)
+    amb = any(abs(v - round(v)) <= t for v, t in
+              zip(vals, (tolx, tolx, toly, toly)))
+    return (math.floor(vals[0]), math.ceil(vals[1]), math.floor(vals[2]),
+            math.ceil(vals[3]), amb)
+
+
+def box_misses(shape, x0, y0, imshape):
+    """(misses, ambiguous) for the minimal box against an image shape."""
+    ny, nx = imshape
+    ixmin, ixmax, iymin, iymax, amb = minimal_box(shape, x0, y0)
+    miss = ixmin >= nx or iymin >= ny or ixmax <= 0 or iymax <= 0
+    if amb:
+        # would a one-pixel change of any bound flip the answer?
+        alt = [(ixmin + a, ixmax + b, iymin + c, iymax + d)
+               for a in (-1, 0, 1) for b in (-1, 0, 1)
+               for c in (-1, 0, 1) for d in (-1, 0, 1)]
+        flips = any((x0_ >= nx or y0_ >= ny or x1_ <= 0 or y1_ <= 0) != miss
+                    for (x0_, x1_, y0_, y1_) in alt)
+        return miss, flips
+    return miss, False
